@@ -37,3 +37,9 @@ mod pool;
 mod zst;
 #[cfg(kani)]
 mod fail2;
+#[cfg(kani)]
+mod zero;
+#[cfg(kani)]
+mod pool2;
+#[cfg(kani)]
+mod splice;
